@@ -825,6 +825,7 @@ func explore(t *testing.T, x *pbt.Ctx, td *typeDef, c Case, cap int64, extra int
 
 // plan says which programs of which types a mode explores.
 type plan struct {
+	safety bool
 	types  []typeDef
 	shapes []string
 	// afterUnlock: shapes explored with the additional scheduling points after unlocks
@@ -844,7 +845,7 @@ func linPlan(thorough bool) plan {
 }
 
 func safetyPlan(thorough bool) plan {
-	return plan{types: safetyTypes, shapes: []string{"2x1", "3x1", "4x1merge"},
+	return plan{safety: true, types: safetyTypes, shapes: []string{"2x1", "3x1", "4x1merge"},
 		afterUnlock: map[string]bool{"2x1": true, "3x1": thorough, "4x1merge": false},
 		sampled:     map[string]bool{"3x1": true}}
 }
@@ -858,6 +859,10 @@ func bodyFor(mk func(thorough bool) plan) func(t *testing.T, x *pbt.Ctx) {
 		capPer, extra := int64(30000), 2000
 		if cfg.Thorough {
 			capPer, extra = 400000, 20000
+			if pl.safety {
+				// the multi-element operations have many more scheduling points: nearly every program hits the cap
+				capPer, extra = 100000, 10000
+			}
 		}
 		idx := 0
 		failedTypes := map[string]bool{}
